@@ -25,3 +25,7 @@ def run(ctx):
     sc.sched_check(
         ctx, so.c02, ['sched', 'mixed'], nontrivial,
         rule='random acyclic engines with value-level input declarations (refs at alg/sv/value level, feedback) x random histories; success replies flag a random subset of the outputs new. Non-trivial = a success reply carried >= 1 new value consumed by >= 1 child while >= 1 other child consumes none of the new values')
+
+
+def replay(ctx, obj):
+    sc.sched_replay(ctx, obj, so.c02)
